@@ -18,7 +18,7 @@ def determinism(n=40):
     """each case twice, at two worker counts, on every build variant; fingerprints (decision-trace hash, outputs, failures) must be pairwise equal.
     Worlds: whole encoder (all policies, buggify, machines), multi-instance (enc+dec), multi-threaded decoder, SRM and segment component worlds, fine-grained preemption."""
     from . import checks3
-    core.build('plain'); core.build('asan'); core.build('fine')
+    core.build('plain'); core.build('asan'); core.build('fine'); core.build('mem')
     rng = random.Random(12345)
     enc = []
     for i in range(n):
@@ -42,7 +42,8 @@ def determinism(n=40):
         multi.append({'world': 'multi', 'instances': insts, 'sim': gen.schedule(rng, horizon=12000, nthreads=60, allow_buggify=False), 'machine': {'cores': 4, 'sockets': 1}, 'oracles': {'decode': 0, 'parse': 0}})
     fine = [dict(c, sim=dict(gen.schedule(rng, allow_buggify=False), fine=rng.choice([3000, 20000]))) for c in enc[:max(6, n // 3)]]
     bad = 0; total = 0
-    for variant, cases in (('plain', enc + dec + comp + multi), ('asan', enc[:n // 2] + dec[:n // 2] + multi[:3]), ('fine', fine + [dict(m, sim=dict(m['sim'], fine=8000)) for m in multi[:3]])):
+    memc = [dict(c, sim=dict(c['sim'], mem=rng.choice([3, 20, 60]), step_limit=3000000)) for c in comp[:n * 2]] + [dict(c, sim=dict(c['sim'], mem=rng.choice([300, 3000]))) for c in dec[:n // 2]] + [dict(c, sim=dict(gen.schedule(rng, allow_buggify=False), mem=rng.choice([5000, 50000]))) for c in enc[:max(4, n // 6)]]
+    for variant, cases in (('plain', enc + dec + comp + multi), ('asan', enc[:n // 2] + dec[:n // 2] + multi[:3]), ('fine', fine + [dict(m, sim=dict(m['sim'], fine=8000)) for m in multi[:3]]), ('mem', memc)):
         a = pmap(lambda c: run_case(c, variant), cases, jobs=16)
         b = pmap(lambda c: run_case(c, variant), cases, jobs=3)
         vb = 0
